@@ -502,4 +502,392 @@ theorem mwem_laplace_alpha_gt_one_overspends (epsilon alpha : ℝ) (rounds : ℕ
   nlinarith
 end mwem
 
+/-! ## 5. AIM -/
+
+section aim
+variable {C DS R : Type} [DecidableEq C]
+
+/-- what a round of `AIM.run` sees besides the private data and the ledger state: the outcome of the annealing test, the
+current model (answer vectors, cell counts, cliques — functions of the earlier noisy outputs), the size limit of the
+round, and the outcome `sel` of the draw -/
+structure AimRound (C : Type) where
+  anneal : Bool
+  xest : C → List ℝ
+  msize : C → ℝ
+  cliques : List C
+  size_limit : ℝ
+  sel : C
+
+open Classical in
+/-- noise scale and selection epsilon of a round that starts in the ledger state `s` (`aim.py:88-95`: re-calibrated to the
+remaining budget when the guard fires) — the same expressions `C05.aimStep` books -/
+noncomputable def aimRoundParams (rho : ℝ) (s : AimState) : ℝ × ℝ :=
+  let last := decide (aim_last_round_guard rho s.rho_used s.sigma s.epsilon)
+  let rem := aim_remaining rho s.rho_used
+  (if last then aim_sigma_last rem else s.sigma, if last then aim_eps_last rem else s.epsilon)
+
+theorem aimStep_rho_used (rho : ℝ) (s : AimState) (b : Bool) (ht : s.terminated = false) :
+    (aimStep rho s b).rho_used = aim_rho_used_step s.rho_used (aimRoundParams rho s).2 (aimRoundParams rho s).1 := by
+  simp [aimStep, aimRoundParams, ht]
+
+theorem aimStep_epsilon (rho : ℝ) (s : AimState) (b : Bool) (ht : s.terminated = false) :
+    (aimStep rho s b).epsilon = if b then aim_eps_anneal (aimRoundParams rho s).2 else (aimRoundParams rho s).2 := by
+  simp [aimStep, aimRoundParams, ht]
+
+theorem aimRoundParams_eps_nonneg (rho : ℝ) (s : AimState) (he : 0 ≤ s.epsilon) : 0 ≤ (aimRoundParams rho s).2 := by
+  simp only [aimRoundParams]
+  split
+  · unfold aim_eps_last; positivity
+  · exact he
+
+theorem aimStep_eps_nonneg (rho : ℝ) (s : AimState) (b : Bool) (he : 0 ≤ s.epsilon) : 0 ≤ (aimStep rho s b).epsilon := by
+  by_cases ht : s.terminated = true
+  · have : aimStep rho s b = s := by simp [aimStep, ht]
+    rw [this]; exact he
+  · have ht' : s.terminated = false := by simpa using ht
+    rw [aimStep_epsilon rho s b ht']
+    have h := aimRoundParams_eps_nonneg rho s he
+    cases b
+    · simpa using h
+    · simp only [if_true]
+      have e : aim_eps_anneal (aimRoundParams rho s).2 = (aimRoundParams rho s).2 * 2 := by
+        simp only [aim_eps_anneal] <;> pgm_arith
+      rw [e]; positivity
+
+/-- the events of one round: the generated selection statements of `AIM.run` at the round's epsilon, then the release of
+the selected marginal at the round's sigma -/
+noncomputable def aimRoundEvents (rho : ℝ) (g : GraphOps C DS ℝ) (cands : List (C × ℝ)) (cell : C → R → ℕ) (size : C → ℕ)
+    (D D' : List R) (s : AimState) (rd : AimRound C) : List Event :=
+  if s.terminated = true then [] else
+  [Event.select (logDist
+      (AIM_run_select npR g cands (marg cell size D) rd.xest rd.msize rd.cliques rd.size_limit
+        (aim_select_eps (aimRoundParams rho s).2) (aim_select_sigma (aimRoundParams rho s).1)).2.p
+      (AIM_run_select npR g cands (marg cell size D') rd.xest rd.msize rd.cliques rd.size_limit
+        (aim_select_eps (aimRoundParams rho s).2) (aim_select_sigma (aimRoundParams rho s).1)).2.p),
+   Event.release .gauss (aim_noise_scale_round (aimRoundParams rho s).1)
+      (l2 (marg cell size D rd.sel) (marg cell size D' rd.sel))]
+
+/-- the `while not terminate` loop: the ledger state evolves by `C05.aimStep` -/
+noncomputable def aimLoopEvents (rho : ℝ) (g : GraphOps C DS ℝ) (cands : List (C × ℝ)) (cell : C → R → ℕ) (size : C → ℕ)
+    (D D' : List R) : List (AimRound C) → AimState → List Event
+  | [], _ => []
+  | rd :: rest, s => aimRoundEvents inf fmax rho g cands cell size D D' s rd
+      ++ aimLoopEvents rho g cands cell size D D' rest (aimStep rho s rd.anneal)
+
+/-- all events of `AIM.run`: the one-way marginals at the initial sigma, then the loop -/
+noncomputable def aimEvents (rho rounds : ℝ) (g : GraphOps C DS ℝ) (cands : List (C × ℝ)) (oneway : List C)
+    (cell : C → R → ℕ) (size : C → ℕ) (D D' : List R) (rds : List (AimRound C)) : List Event :=
+  oneway.map (fun cl => Event.release .gauss (aim_noise_scale_init (aim_sigma0 rounds rho))
+      (l2 (marg cell size D cl) (marg cell size D' cl)))
+  ++ aimLoopEvents inf fmax rho g cands cell size D D' rds (aimInit rho rounds (oneway.length : ℕ))
+
+/-- the round produces output: some candidate that passes the size filter has a non-zero weight (otherwise `max` of an
+empty sequence raises, resp. the probabilities are NaN), and the model's answer vectors have the marginals' sizes -/
+def AimRoundOK (g : GraphOps C DS ℝ) (cands : List (C × ℝ)) (size : C → ℕ) (rd : AimRound C) : Prop :=
+  (∃ cl ∈ dictKeys (aim_filter_candidates npR g cands rd.xest rd.msize rd.cliques rd.size_limit),
+      dictGet (aim_filter_candidates npR g cands rd.xest rd.msize rd.cliques rd.size_limit) cl ≠ 0) ∧
+  ∀ cl, (rd.xest cl).length = size cl
+
+/-- **a round's actual cost is at most what the ledger variable `rho_used` is incremented by** -/
+theorem aim_round_le (rho : ℝ) (g : GraphOps C DS ℝ) (cands : List (C × ℝ)) (cell : C → R → ℕ) (size : C → ℕ)
+    (D D' : List R) (s : AimState) (rd : AimRound C) (he : 0 ≤ s.epsilon) (hnb : AddRemove D D')
+    (hok : AimRoundOK inf fmax g cands size rd) :
+    total (aimRoundEvents inf fmax rho g cands cell size D D' s rd) ≤ (aimStep rho s rd.anneal).rho_used - s.rho_used := by
+  by_cases ht : s.terminated = true
+  · have : aimStep rho s rd.anneal = s := by simp [aimStep, ht]
+    rw [this]
+    simp [aimRoundEvents, ht, total]
+  · have ht' : s.terminated = false := by simpa using ht
+    rw [aimStep_rho_used rho s rd.anneal ht', aim_ledger_matches]
+    have hε := aimRoundParams_eps_nonneg rho s he
+    simp only [aimRoundEvents, ht', Bool.false_eq_true, if_false, total, List.map_cons, List.map_nil, List.sum_cons, List.sum_nil, cost]
+    generalize (aimRoundParams rho s).2 = eps at hε ⊢
+    generalize (aimRoundParams rho s).1 = sigma
+    have e1 : aim_select_eps eps = eps := by simp only [aim_select_eps]
+    have hclose := aim_run_selection_cost inf fmax g cands (marg cell size D) (marg cell size D') rd.xest rd.msize rd.cliques
+      rd.size_limit (aim_select_eps eps) (aim_select_sigma sigma) (by rw [e1]; exact hε) hok.1
+      (fun cl => ⟨by rw [marg_length, hok.2], by rw [marg_length, hok.2]⟩)
+      (fun cl => (marginal_release_delta cell size D D' hnb cl).1)
+    have hsel := selectCost_logDist_le (by rw [e1]; exact hε) hclose
+    have hrel := gaussCost_l2_le (marg cell size D rd.sel) (marg cell size D' rd.sel) (aim_noise_scale_round sigma) 1
+      (marginal_release_delta cell size D D' hnb rd.sel).2.1
+    have hcost : aimRoundCost sigma eps = 1 / (2 * aim_noise_scale_round sigma ^ 2) + aim_select_eps eps ^ 2 / 8 := by
+      simp only [aimRoundCost, gaussCost, selectCost, realisedEps] <;> pgm_arith
+    rw [hcost]
+    linarith
+
+/-- the loop, for every sequence of rounds: actual cost at most the increase of `rho_used` -/
+theorem aim_loop_le (rho : ℝ) (g : GraphOps C DS ℝ) (cands : List (C × ℝ)) (cell : C → R → ℕ) (size : C → ℕ)
+    (D D' : List R) (rds : List (AimRound C)) (s : AimState) (he : 0 ≤ s.epsilon) (hnb : AddRemove D D')
+    (hok : ∀ rd ∈ rds, AimRoundOK inf fmax g cands size rd) :
+    total (aimLoopEvents inf fmax rho g cands cell size D D' rds s)
+      ≤ ((rds.map AimRound.anneal).foldl (aimStep rho) s).rho_used - s.rho_used := by
+  induction rds generalizing s with
+  | nil => simp [aimLoopEvents, total]
+  | cons rd rest ih =>
+    simp only [aimLoopEvents, List.map_cons, List.foldl_cons]
+    rw [total_append]
+    have h1 := aim_round_le inf fmax rho g cands cell size D D' s rd he hnb (hok rd (List.mem_cons_self ..))
+    have h2 := ih (aimStep rho s rd.anneal) (aimStep_eps_nonneg rho s rd.anneal he)
+      (fun r hr => hok r (List.mem_cons_of_mem _ hr))
+    linarith
+
+/-- **AIM, end to end**: for every sequence of rounds (annealing outcomes, models, size limits, draws), on neighbouring
+datasets, the actual changes of the one-way releases, of every selection and of every round's release cost at most `rho`
+— under `0.9·#oneway ≤ rounds`, the hypothesis `C05.aim_budget` needs -/
+theorem aim_total_cost_le_rho (rho rounds : ℝ) (g : GraphOps C DS ℝ) (cands : List (C × ℝ)) (oneway : List C)
+    (cell : C → R → ℕ) (size : C → ℕ) (D D' : List R) (rds : List (AimRound C))
+    (hrho : 0 < rho) (hrounds : 0 < rounds) (hfit : 0.9 * ((oneway.length : ℕ) : ℝ) ≤ rounds) (hnb : AddRemove D D')
+    (hok : ∀ rd ∈ rds, AimRoundOK inf fmax g cands size rd) :
+    total (aimEvents inf fmax rho rounds g cands oneway cell size D D' rds) ≤ rho := by
+  unfold aimEvents
+  rw [total_append]
+  have hinit : total (oneway.map (fun cl => Event.release .gauss (aim_noise_scale_init (aim_sigma0 rounds rho))
+      (l2 (marg cell size D cl) (marg cell size D' cl)))) ≤ (aimInit rho rounds (oneway.length : ℕ)).rho_used := by
+    rw [aim_init_matches]
+    unfold total
+    rw [List.map_map]
+    refine le_trans (sum_le_length_mul oneway _ (gaussCost 1 (aim_noise_scale_init (aim_sigma0 rounds rho))) ?_) le_rfl
+    intro cl _
+    simp only [Function.comp, cost]
+    have := gaussCost_l2_le (marg cell size D cl) (marg cell size D' cl) (aim_noise_scale_init (aim_sigma0 rounds rho)) 1
+      (marginal_release_delta cell size D D' hnb cl).2.1
+    simpa [gaussCost] using this
+  have he0 : 0 ≤ (aimInit rho rounds (oneway.length : ℕ)).epsilon := by
+    simp only [aimInit]; unfold aim_eps0; positivity
+  have hloop := aim_loop_le inf fmax rho g cands cell size D D' rds (aimInit rho rounds (oneway.length : ℕ)) he0 hnb hok
+  have hbud := aim_budget rho rounds oneway.length (rds.map AimRound.anneal) hrho hrounds hfit
+  linarith
+end aim
+
+/-- **`0.9·#oneway ≤ rounds` is necessary**: with more one-way marginals the initial releases alone, on a record that
+moves every one-way marginal by 1, cost more than `rho` (the real code then computes a negative remaining budget, a NaN
+scale, and raises before producing output — executed by the check) -/
+theorem aim_oneway_exceeds (rho rounds : ℝ) (n : ℕ) (hrho : 0 < rho) (hrounds : 0 < rounds) (hfit : rounds < 0.9 * (n : ℝ)) :
+    rho < (n : ℝ) * cost (Event.release .gauss (aim_noise_scale_init (aim_sigma0 rounds rho)) 1) := by
+  have hG : ∀ σ, gaussCost 1 (aim_noise_scale_init σ) = 1 / (2 * σ ^ 2) := by
+    intro σ
+    simp only [gaussCost, aim_noise_scale_init] <;> pgm_arith
+  simp only [cost]
+  rw [hG, aim_sigma0_sq rounds rho hrho hrounds]
+  have e : (n : ℝ) * (1 / (2 * (rounds / (1.8 * rho)))) = 0.9 * n * rho / rounds := by
+    pgm_arith
+  rw [e, lt_div_iff₀ hrounds]
+  nlinarith [mul_lt_mul_of_pos_right hfit hrho]
+
+/-! ## 6. Adaptive Grid -/
+
+section ada
+variable {A DS R : Type} [DecidableEq A] [Inhabited A]
+
+/-- one record more in cell `j` moves `Q @ mu` by at most 1 in L2 when `Q` has column norms ≤ 1 (any `j`) -/
+theorem sqDist_apply_unit_le (Q : AdaGrid.Mat ℝ) (hQ : ∀ j, AdaGrid.colSq Q j ≤ 1) (mu : List ℝ) (j : ℕ) :
+    sqDist (AdaGrid.apply Q (mu.set j (mu.getD j 0 + 1))) (AdaGrid.apply Q mu) ≤ 1 := by
+  by_cases hj : j < mu.length
+  · rw [AdaGridSens.sqDist_apply_add_unit Q mu j hj]; exact hQ j
+  · rw [List.set_eq_of_length_le (by omega), sqDist_self]; norm_num
+
+/-- **the released statistic `Q @ mu` of a matrix with column norms ≤ 1 moves by at most 1 in L2** between datasets
+differing by one added / removed record -/
+theorem ada_release_delta {C : Type} (Q : AdaGrid.Mat ℝ) (hQ : ∀ j, AdaGrid.colSq Q j ≤ 1) (cell : C → R → ℕ) (size : C → ℕ)
+    (D D' : List R) (h : AddRemove D D') (c : C) :
+    sqDist (AdaGrid.apply Q (marg cell size D c)) (AdaGrid.apply Q (marg cell size D' c)) ≤ 1 := by
+  obtain ⟨r, h | h⟩ := h
+  · rw [marg_cons cell size D D' r h c, sqDist_comm, countVec_cons_set]
+    exact sqDist_apply_unit_le Q hQ _ _
+  · rw [marg_cons cell size D' D r h c, countVec_cons_set]
+    exact sqDist_apply_unit_le Q hQ _ _
+
+theorem ada_loop2_length (g : GraphOps A DS ℝ) (x : List A → List ℝ) (attrs : List A)
+    (xest : List A → List ℝ) (size : List A → ℝ) (mcl : List (List A)) (rho : ℝ) (targets : List A) (draws : ℕ → ℕ)
+    (weights : List ((A × A) × ℝ)) (epsilon : ℝ) (l : List ℕ)
+    (st : List (A × A) × (List A × List (A × A)) × DS × List (Draw ℝ)) :
+    (l.foldl (ada_select_loop2 npR g x attrs xest size mcl rho targets draws weights epsilon) st).2.2.2.length
+        = st.2.2.2.length + l.length ∧
+    (l.foldl (ada_select_loop2 npR g x attrs xest size mcl rho targets draws weights epsilon) st).2.1.2.length
+        = st.2.1.2.length + l.length := by
+  induction l generalizing st with
+  | nil => simp
+  | cons i l ih =>
+    rw [List.foldl_cons]
+    obtain ⟨h1, h2⟩ := ih (ada_select_loop2 npR g x attrs xest size mcl rho targets draws weights epsilon st i)
+    rw [h1, h2, gen_ada_loop2]
+    simp only [List.length_append, List.length_cons, List.length_nil]
+    omega
+
+/-- `select` makes exactly `r − 1` draws and returns `r − 1` cliques, `r = #attributes − #targets` -/
+theorem ada_select_lengths (g : GraphOps A DS ℝ) (x : List A → List ℝ) (attrs : List A)
+    (xest : List A → List ℝ) (size : List A → ℝ) (mcl : List (List A)) (rho : ℝ) (targets : List A) (draws : ℕ → ℕ) :
+    (ada_select npR g x attrs xest size mcl rho targets draws).2.length
+        = (((attrs.length : ℕ) : ℤ) - ((targets.length : ℕ) : ℤ) - 1).toNat ∧
+    (ada_select npR g x attrs xest size mcl rho targets draws).1.length
+        = (((attrs.length : ℕ) : ℤ) - ((targets.length : ℕ) : ℤ) - 1).toNat := by
+  have h := ada_loop2_length inf fmax g x attrs xest size mcl rho targets draws
+    (ada_select_weights npR g x attrs xest size mcl rho targets draws)
+    (ada_select_epsilon npR g x attrs xest size mcl rho targets draws)
+    (List.range ((((attrs.length : ℕ) : ℤ) - ((targets.length : ℕ) : ℤ) - 1).toNat))
+    (comb2 (attrs.filter (fun a => !(decide (a ∈ targets)))), ([] ++ attrs, []), g.ds_empty, [])
+  simp only [List.length_nil, List.length_range, Nat.zero_add] at h
+  refine ⟨h.1, ?_⟩
+  have h2 := h.2
+  show (List.map _ _).length = _
+  rw [List.length_map]
+  exact h2
+
+/-- the events of one run of `adagrid` on `D`, replayed on `D'` with the same random outcomes:
+* step 1: the cliques `step1` at `ada_step1_scale (ada_step1_sigma rho1 n1)`, statistic `matrices[cl] @ mu`;
+* step 2: the transcripts of the generated `ada_select_call`;
+* step 3: the cliques `select` returned, at `ada_step3_scale (ada_step3_sigma (number of those cliques) rho3)`. -/
+noncomputable def adaEvents (rho1 rho2 rho3 : ℝ) (g : GraphOps A DS ℝ) (n1 : ℕ) (step1 : List (List A))
+    (matrices : List A → AdaGrid.Mat ℝ) (cell : List A → R → ℕ) (size : List A → ℕ) (attrs targets : List A)
+    (xest : List A → List ℝ) (msize : List A → ℝ) (mcl : List (List A)) (draws : ℕ → ℕ) (D D' : List R) : List Event :=
+  step1.map (fun cl => Event.release .gauss (ada_step1_scale (ada_step1_sigma rho1 n1))
+      (l2 (AdaGrid.apply (matrices cl) (marg cell size D cl)) (AdaGrid.apply (matrices cl) (marg cell size D' cl))))
+  ++ List.zipWith (fun d d' => Event.select (logDist d.p d'.p))
+      (ada_select_call npR g (marg cell size D) attrs xest msize mcl rho2 targets draws).2
+      (ada_select_call npR g (marg cell size D') attrs xest msize mcl rho2 targets draws).2
+  ++ (ada_select_call npR g (marg cell size D) attrs xest msize mcl rho2 targets draws).1.map (fun cl =>
+      Event.release .gauss (ada_step3_scale (ada_step3_sigma
+          (((ada_select_call npR g (marg cell size D) attrs xest msize mcl rho2 targets draws).1.length : ℕ) : ℝ) rho3))
+        (l2 (AdaGrid.apply (matrices cl) (marg cell size D cl)) (AdaGrid.apply (matrices cl) (marg cell size D' cl))))
+
+/-- `k` releases of statistics moving by at most 1, at a scale with `σ² = n/(2ρ)`, `k ≤ n`: at most `ρ` -/
+theorem ada_release_phase_le {C : Type} (cls : List C) (scale rho : ℝ) (n : ℕ) (x x' : C → List ℝ) (hrho : 0 < rho)
+    (hk : cls.length ≤ n) (hscale : 0 < n → scale ^ 2 = (n : ℝ) / (2 * rho)) (hnb : ∀ c, sqDist (x c) (x' c) ≤ 1) :
+    total (cls.map (fun cl => Event.release .gauss scale (l2 (x cl) (x' cl)))) ≤ rho := by
+  unfold total
+  rw [List.map_map]
+  by_cases h0 : cls.length = 0
+  · rw [List.length_eq_zero_iff.1 h0]; simp; exact hrho.le
+  · have hn : 0 < n := by omega
+    have hN : (0 : ℝ) < n := by exact_mod_cast hn
+    refine le_trans (sum_le_length_mul cls _ (1 / (2 * scale ^ 2)) ?_) ?_
+    · intro cl _
+      simp only [Function.comp, cost]
+      exact gaussCost_l2_le (x cl) (x' cl) scale 1 (hnb cl)
+    · rw [hscale hn]
+      have hkR : (cls.length : ℝ) ≤ n := by exact_mod_cast hk
+      have e : (1 : ℝ) / (2 * ((n : ℝ) / (2 * rho))) = rho / n := by field_simp
+      rw [e]
+      calc (cls.length : ℝ) * (rho / n) ≤ (n : ℝ) * (rho / n) := mul_le_mul_of_nonneg_right hkR (by positivity)
+        _ = rho := by field_simp
+
+/-- the selection phase alone: at most `rho2` -/
+theorem ada_select_phase_le (rho2 : ℝ) (g : GraphOps A DS ℝ) (x x' : List A → List ℝ) (attrs targets : List A)
+    (xest : List A → List ℝ) (msize : List A → ℝ) (mcl : List (List A)) (draws : ℕ → ℕ) (hrho : 0 < rho2)
+    (hinf : ada_select_eps (ada_select_rho rho2) ((attrs.length : ℝ) - (targets.length : ℝ)) ≠ inf)
+    (hlen : ∀ c, (x c).length = (xest c).length ∧ (x' c).length = (xest c).length)
+    (hnb : ∀ c, l1 (x c) (x' c) ≤ 1) :
+    total (List.zipWith (fun d d' => Event.select (logDist d.p d'.p))
+      (ada_select_call npR g x attrs xest msize mcl rho2 targets draws).2
+      (ada_select_call npR g x' attrs xest msize mcl rho2 targets draws).2) ≤ rho2 := by
+  rw [gen_ada_select_call, gen_ada_select_call]
+  have er : ada_select_rho rho2 = rho2 := by simp only [ada_select_rho]
+  have hinf' : ada_select_epsilon npR g x attrs xest msize mcl rho2 targets draws ≠ inf := by
+    rw [gen_ada_epsilon, ← er]; exact hinf
+  have hc := (ada_select_cost inf fmax g x x' attrs xest msize mcl rho2 targets draws hinf' hlen hnb).2
+  have hε := ada_select_epsilon_nonneg inf fmax g x attrs xest msize mcl rho2 targets draws
+  unfold total
+  rw [List.map_zipWith]
+  have hsum := sum_zipWith_le_of_forall₂ (DrawClose (ada_select_epsilon npR g x attrs xest msize mcl rho2 targets draws))
+    (fun d d' => cost (Event.select (logDist d.p d'.p)))
+    ((ada_select_epsilon npR g x attrs xest msize mcl rho2 targets draws) ^ 2 / 8) _ _ hc
+    (fun d d' hdd => selectCost_logDist_le hε hdd.2)
+  refine le_trans hsum ?_
+  rw [(ada_select_lengths inf fmax g x attrs xest msize mcl rho2 targets draws).1, gen_ada_epsilon, ← er]
+  generalize attrs.length = n
+  generalize targets.length = t
+  by_cases hr : (2 : ℤ) ≤ (n : ℤ) - (t : ℤ)
+  · have hr1 : (0 : ℝ) < ((n : ℝ) - (t : ℝ)) - 1 := by
+      have : ((2 : ℤ) : ℝ) ≤ (((n : ℤ) - (t : ℤ) : ℤ) : ℝ) := by exact_mod_cast hr
+      push_cast at this; linarith
+    have hk : (((((n : ℤ) - (t : ℤ) - 1).toNat : ℕ)) : ℝ) = (n : ℝ) - (t : ℝ) - 1 := by
+      have h1 : ((((n : ℤ) - (t : ℤ) - 1).toNat : ℕ) : ℤ) = (n : ℤ) - (t : ℤ) - 1 := Int.toNat_of_nonneg (by omega)
+      have h2 : (((((n : ℤ) - (t : ℤ) - 1).toNat : ℕ)) : ℝ) = ((((((n : ℤ) - (t : ℤ) - 1).toNat : ℕ)) : ℤ) : ℝ) := by push_cast; rfl
+      rw [h2, h1]; push_cast; ring
+    rw [hk, ada_select_eps_sq rho2 _ hrho hr1, er]
+    apply le_of_eq
+    field_simp
+  · have hk : ((n : ℤ) - (t : ℤ) - 1).toNat = 0 := by omega
+    rw [hk]
+    simp only [Nat.cast_zero, zero_mul]
+    exact hrho.le
+
+/-- **Adaptive Grid, end to end, for given step budgets**: `History hist` — the dictionary `matrices` was filled as the
+mechanism does (`C05B`), whatever the data-dependent selections of cells were -/
+theorem ada_total_cost_le_steps (rho1 rho2 rho3 : ℝ) (g : GraphOps A DS ℝ) (n1 : ℕ) (step1 : List (List A))
+    (matrices : List A → AdaGrid.Mat ℝ) (hist : List (AdaGrid.Mat ℝ)) (cell : List A → R → ℕ) (size : List A → ℕ)
+    (attrs targets : List A) (xest : List A → List ℝ) (msize : List A → ℝ) (mcl : List (List A)) (draws : ℕ → ℕ)
+    (D D' : List R) (h1 : 0 < rho1) (h2 : 0 < rho2) (h3 : 0 < rho3) (hnb : AddRemove D D')
+    (hn1 : step1.length ≤ n1) (hhist : History hist) (hmat : ∀ cl, matrices cl ∈ hist)
+    (hinf : ada_select_eps (ada_select_rho rho2) ((attrs.length : ℝ) - (targets.length : ℝ)) ≠ inf)
+    (hsz : ∀ c, (xest c).length = size c) :
+    total (adaEvents inf fmax rho1 rho2 rho3 g n1 step1 matrices cell size attrs targets xest msize mcl draws D D')
+      ≤ rho1 + rho2 + rho3 := by
+  have hQ : ∀ cl, sqDist (AdaGrid.apply (matrices cl) (marg cell size D cl)) (AdaGrid.apply (matrices cl) (marg cell size D' cl)) ≤ 1 :=
+    fun cl => ada_release_delta (matrices cl) (adagrid_history_sensitivity hhist _ (hmat cl)) cell size D D' hnb cl
+  have e1 := ada_release_phase_le step1 (ada_step1_scale (ada_step1_sigma rho1 n1)) rho1 n1
+    (fun cl => AdaGrid.apply (matrices cl) (marg cell size D cl)) (fun cl => AdaGrid.apply (matrices cl) (marg cell size D' cl))
+    h1 hn1 (fun hn => by
+      have hN : (0 : ℝ) < n1 := by exact_mod_cast hn
+      have : ada_step1_scale (ada_step1_sigma rho1 n1) = ada_step1_sigma rho1 n1 := by simp only [ada_step1_scale]
+      rw [this, ada_step1_sigma_sq rho1 n1 h1 hN]) hQ
+  have e3 := ada_release_phase_le (ada_select_call npR g (marg cell size D) attrs xest msize mcl rho2 targets draws).1
+    (ada_step3_scale (ada_step3_sigma
+      (((ada_select_call npR g (marg cell size D) attrs xest msize mcl rho2 targets draws).1.length : ℕ) : ℝ) rho3)) rho3
+    (ada_select_call npR g (marg cell size D) attrs xest msize mcl rho2 targets draws).1.length
+    (fun cl => AdaGrid.apply (matrices cl) (marg cell size D cl)) (fun cl => AdaGrid.apply (matrices cl) (marg cell size D' cl))
+    h3 le_rfl (fun hn => by
+      have hN : (0 : ℝ) < ((ada_select_call npR g (marg cell size D) attrs xest msize mcl rho2 targets draws).1.length : ℕ) := by
+        exact_mod_cast hn
+      have : ∀ s, ada_step3_scale s = s := by intro s; simp only [ada_step3_scale]
+      rw [this, ada_step3_sigma_sq _ rho3 h3 hN]) hQ
+  have e2 := ada_select_phase_le inf fmax rho2 g (marg cell size D) (marg cell size D') attrs targets xest msize mcl draws h2 hinf
+    (fun c => ⟨by rw [marg_length, hsz], by rw [marg_length, hsz]⟩)
+    (fun c => (marginal_release_delta cell size D D' hnb c).1)
+  unfold adaEvents
+  rw [total_append, total_append]
+  linarith
+
+/-- **Adaptive Grid, end to end, default split** (`rho/3` each) -/
+theorem ada_total_cost_le_rho (rho : ℝ) (g : GraphOps A DS ℝ) (n1 : ℕ) (step1 : List (List A))
+    (matrices : List A → AdaGrid.Mat ℝ) (hist : List (AdaGrid.Mat ℝ)) (cell : List A → R → ℕ) (size : List A → ℕ)
+    (attrs targets : List A) (xest : List A → List ℝ) (msize : List A → ℝ) (mcl : List (List A)) (draws : ℕ → ℕ)
+    (D D' : List R) (hrho : 0 < rho) (hnb : AddRemove D D')
+    (hn1 : step1.length ≤ n1) (hhist : History hist) (hmat : ∀ cl, matrices cl ∈ hist)
+    (hinf : ada_select_eps (ada_select_rho (ada_rho_step2_default rho)) ((attrs.length : ℝ) - (targets.length : ℝ)) ≠ inf)
+    (hsz : ∀ c, (xest c).length = size c) :
+    total (adaEvents inf fmax (ada_rho_step_default rho) (ada_rho_step2_default rho) (ada_rho_step3_default rho) g n1 step1
+      matrices cell size attrs targets xest msize mcl draws D D') ≤ rho := by
+  have e1 : ada_rho_step_default rho = rho / 3 := by simp only [ada_rho_step_default] <;> pgm_arith
+  have e2 : ada_rho_step2_default rho = rho / 3 := by simp only [ada_rho_step2_default] <;> pgm_arith
+  have e3 : ada_rho_step3_default rho = rho / 3 := by simp only [ada_rho_step3_default] <;> pgm_arith
+  have hpos : 0 < rho / 3 := by positivity
+  have h := ada_total_cost_le_steps inf fmax (ada_rho_step_default rho) (ada_rho_step2_default rho) (ada_rho_step3_default rho)
+    g n1 step1 matrices hist cell size attrs targets xest msize mcl draws D D' (by rw [e1]; exact hpos) (by rw [e2]; exact hpos)
+    (by rw [e3]; exact hpos) hnb hn1 hhist hmat hinf hsz
+  rw [e1, e2, e3] at h ⊢
+  linarith
+
+/-- … and with a split strategy (fractions normalised to sum 1 by the code) -/
+theorem ada_total_cost_le_rho_split (rho f1 f2 f3 : ℝ) (g : GraphOps A DS ℝ) (n1 : ℕ) (step1 : List (List A))
+    (matrices : List A → AdaGrid.Mat ℝ) (hist : List (AdaGrid.Mat ℝ)) (cell : List A → R → ℕ) (size : List A → ℕ)
+    (attrs targets : List A) (xest : List A → List ℝ) (msize : List A → ℝ) (mcl : List (List A)) (draws : ℕ → ℕ)
+    (D D' : List R) (hrho : 0 < rho) (hf1 : 0 < f1) (hf2 : 0 < f2) (hf3 : 0 < f3) (hsum : f1 + f2 + f3 = 1)
+    (hnb : AddRemove D D') (hn1 : step1.length ≤ n1) (hhist : History hist) (hmat : ∀ cl, matrices cl ∈ hist)
+    (hinf : ada_select_eps (ada_select_rho (ada_rho_step2_split rho f2)) ((attrs.length : ℝ) - (targets.length : ℝ)) ≠ inf)
+    (hsz : ∀ c, (xest c).length = size c) :
+    total (adaEvents inf fmax (ada_rho_step1_split rho f1) (ada_rho_step2_split rho f2) (ada_rho_step3_split rho f3) g n1 step1
+      matrices cell size attrs targets xest msize mcl draws D D') ≤ rho := by
+  have e1 : ada_rho_step1_split rho f1 = rho * f1 := by simp only [ada_rho_step1_split] <;> pgm_arith
+  have e2 : ada_rho_step2_split rho f2 = rho * f2 := by simp only [ada_rho_step2_split] <;> pgm_arith
+  have e3 : ada_rho_step3_split rho f3 = rho * f3 := by simp only [ada_rho_step3_split] <;> pgm_arith
+  have h := ada_total_cost_le_steps inf fmax (ada_rho_step1_split rho f1) (ada_rho_step2_split rho f2) (ada_rho_step3_split rho f3)
+    g n1 step1 matrices hist cell size attrs targets xest msize mcl draws D D' (by rw [e1]; positivity) (by rw [e2]; positivity)
+    (by rw [e3]; positivity) hnb hn1 hhist hmat hinf hsz
+  have : rho * f1 + rho * f2 + rho * f3 = rho := by rw [← mul_add, ← mul_add, hsum, mul_one]
+  rw [e1, e2, e3] at h ⊢
+  linarith
+end ada
+
 end PGM.C05E
